@@ -149,6 +149,15 @@ func (s *Session) appendOp(fr *Frame, cc *ssa.CallCommon, args []Val, st *State)
 			j, j, j, st0.L[2].S, add.L[2].S, na.S, j, j, st0.L[2].S, oldArr.S, st0.L[1].S, j, srcArr.S, add.L[1].S, j, st0.L[2].S, na.S, j)
 		_ = jt
 		s.assume(T{ax, SBool})
+		// the same fact seen from the appended slice: its i-th element is element len(old)+i of the result
+		// (triggered by a read of the source element, so that facts about "every element of the result" reach it)
+		s.nfresh++
+		i2 := T{fmt.Sprintf("j!%d", s.nfresh), SInt}
+		srcIdx := s.sidx(add.L[1], i2)
+		dstIdx := s.sidx(I(0), Add(st0.L[2], i2))
+		ax2 := fmt.Sprintf("(forall ((%s Int)) (! (=> (and (<= 0 %s) (< %s %s)) (= (select %s %s) (select %s %s))) :pattern ((select %s %s))))",
+			i2.S, i2.S, i2.S, add.L[2].S, na.S, dstIdx.S, srcArr.S, srcIdx.S, srcArr.S, srcIdx.S)
+		s.assume(T{ax2, SBool})
 		st.Heap[names[i]] = s.define("H", Store(h, ptr, na))
 	}
 	nl := s.define("len", Add(st0.L[2], add.L[2]))
